@@ -22,7 +22,7 @@
      wl_take wl_lock wl_autofail wl_mu rl_lock rl_autofail rl_mu close_go
 
    Observable history.  Every operation emits the SAME events the Go harness records
-   (WCall WRet UWrite UDial URead RCall RRet Closed Watchdog Skip); they are folded by Obs
+   (WCall WRet UWEnter UWrite UDial URead RCall RRet Closed Watchdog Skip); they are folded by Obs
    into a summary `s`.  All property clauses are operators on that summary, so the
    invariants of the exhaustive model and the clauses of the trace monitor MonC18 are
    literally the same definitions.                                                    *)
@@ -50,7 +50,7 @@ PongTag == 0
 
 \* ------------------------------------------------------------------ history summary
 Sum0(budget) ==
-    [budget |-> budget, called |-> {}, retNil |-> {}, retErr |-> {}, hb |-> {}, ulog |-> <<>>,
+    [budget |-> budget, called |-> {}, retNil |-> {}, retErr |-> {}, hb |-> {}, entered |-> {}, ulog |-> <<>>,
      nping |-> 0, npong |-> 0, pingLeaked |-> FALSE, badTag |-> FALSE,
      ndial |-> 0, dialBad |-> FALSE, failRun |-> 0, exhausted |-> FALSE, closed |-> FALSE,
      rin |-> <<>>, rout |-> <<>>, rerrs |-> 0, wd |-> {}, skips |-> 0, nuw |-> 0, nuwfail |-> 0,
@@ -59,10 +59,14 @@ Sum0(budget) ==
 \* fold one event into the summary. Guard on e.ev before touching any other field.
 Obs(s, e) ==
     IF e.ev = "WCall" THEN
-        [s EXCEPT !.called = @ \cup {e.tag}, !.hb = @ \cup { <<a, e.tag>> : a \in s.retNil },
+        \* issued before: the earlier Write had returned nil, or its request had already been taken by the write loop (it was inside
+        \* an underlying Write) when this one was called - whatever happens to it later, it stays ahead of this one
+        [s EXCEPT !.called = @ \cup {e.tag}, !.hb = @ \cup { <<a, e.tag>> : a \in s.retNil \cup s.entered },
                   !.lateCalls = IF s.closed THEN @ \cup {e.tag} ELSE @]          \* Write called after Close had returned
     ELSE IF e.ev = "WRet" THEN
         IF e.ok THEN [s EXCEPT !.retNil = @ \cup {e.tag}, !.okAfterClose = @ \/ e.tag \in s.lateCalls] ELSE [s EXCEPT !.retErr = @ \cup {e.tag}]
+    ELSE IF e.ev = "UWEnter" THEN
+        IF e.tag > 0 THEN [s EXCEPT !.entered = @ \cup {e.tag}] ELSE s
     ELSE IF e.ev = "UWrite" THEN
         IF ~e.ok THEN [s EXCEPT !.nuwfail = @ + 1]
         ELSE IF e.tag = PongTag THEN [s EXCEPT !.npong = @ + 1, !.nuw = @ + 1]
@@ -270,7 +274,7 @@ Apply(st, op) ==
       [] op.a = "close"  -> IF st.mu = "free" THEN DoCloseGo(st) ELSE [st EXCEPT !.closeSt = "wait"]
       [] op.a = "close_go"    -> DoCloseGo(st)
       [] op.a = "wl_take"     -> [st EXCEPT !.wl.pc = "lock", !.wl.req = Head(st.q), !.q = Tail(@)]
-      [] op.a = "wl_lock"     -> [st EXCEPT !.wl.pc = "write", !.wl.inc = st.cur]
+      [] op.a = "wl_lock"     -> Emit([st EXCEPT !.wl.pc = "write", !.wl.inc = st.cur], [ev |-> "UWEnter", tag |-> st.wl.req.tag])
       [] op.a = "wl_autofail" -> DoUW(st, "fail", TRUE)
       [] op.a = "wl_mu"       -> DoWLMu(st)
       [] op.a = "rl_lock"     -> IF st.closed THEN RLExit(st) ELSE [st EXCEPT !.rl.pc = "read", !.rl.inc = st.cur]
